@@ -307,6 +307,31 @@ CLAIMED["C05"] = dict(
     note=SHELL_NOTE + " When the carrier is no longer remembered the property allows any one holder; the comparison "
          "follows the code's choice (first holder in index order).")
 
+CLAIMED["C18"] = dict(
+    engine="tlc+control", design_ref="4.18",
+    technique="TLA+ model of dispatch / handle_method over an abstract line alphabet with the statement's clauses as "
+              "invariants on the complete graph; every TLC transition rendered into several concrete lines and executed "
+              "on all entry points (dispatch, dispatch_async with and without hub, a control_socket Unix stream); "
+              "recorded request sequences and arbitrary lines validated by TLC; TLA+ per-field load/store interleaving "
+              "model of the atomics and TLC linearisation of a recorded multi-thread stress",
+    text="TLC takes every abstract line (blank / garbage / not UTF-8 / non-request JSON / request x version x id kind x method x "
+         "well-typed, ill-typed, missing and extreme parameters: 540-564 lines) from every reachable configuration and "
+         "checks one-response-iff-id, the meaning of each error code, notifications applied, set_* visible in the next "
+         "snapshot and status, timeout clamped to 1000..60000 and echoed, entry points equal outside the subscription "
+         "methods; the 4.3e4 transitions are executed on real DynamicConfig objects through all four entry points with "
+         "1.8e5+ concrete renderings, comparing (response present, id echo, result / error code, applied value), "
+         "snapshot(), a follow-up get_status and response well-formedness; 20k-160k recorded events (abstract "
+         "requests with any u64 timeout, byte noise, truncated and mutated requests, random JSON) are validated by "
+         "TLC; a second model interleaves 2 setter threads and a 3-load snapshot reader per field (5e5 / 3.6e7 states), "
+         "and TLC searches a per-field linearisation of every recorded stress run of the real atomics (60-480 runs, "
+         "each followed by an unlogged 40k-store pressure phase whose reader judges every snapshot on the spot).",
+    note="Two findings are listed in known_findings.json (the positional array form of the request type is taken as "
+         "a request; a line that is not UTF-8 closes the socket connection / ends the stdin listener instead of being "
+         "answered -32700). Float-typed / >u64 timeouts and non-scalar ids are outside what the statement fixes (drift "
+         "at most). Lines that are not UTF-8 exist only on the socket stream; the stdin listener thread is not driven "
+         "(its loop body is dispatch). Subscription methods: answer kind only (C20 owns the hub). Trusted: serde_json's generic "
+         "parser as the grammar oracle for arbitrary lines, TLC, the JSON plumbing.")
+
 PENDING = {}
 
 def main():
